@@ -1650,3 +1650,101 @@ def desugar_translating_with(fn, world, modname):
     out = R().visit(out)
     ast.fix_missing_locations(out)
     return out
+
+
+def pull_tests_through_conversion(fn, world, modname):
+    """A parameter converted in place at the top of a function,
+
+        if isinstance(P, T): P = K(P)
+        REST
+
+    (no else, K a class of the repository, P not assigned again) makes every
+    later type test of P speak about the converted object.  The tests are
+    pulled back to the caller's object and the conversion statement dropped:
+
+        isinstance(P', C)  ==  isinstance(P, T) or isinstance(P, C)       K <= C
+        isinstance(P', C)  ==  not isinstance(P, T) and isinstance(P, C)  otherwise
+
+    What REST then calls P is `the destination, converted if it was a T`;
+    rules that compare which object a command is addressed to by the
+    parameter's name read it as that.  Only a leading statement of exactly
+    this form is taken; fn is returned unchanged otherwise."""
+    from .inline import acopy
+    body = list(fn.body)
+    i = 0
+    while i < len(body) and isinstance(body[i], ast.Expr) and isinstance(
+            body[i].value, ast.Constant):
+        i += 1
+    if i >= len(body) - 1:
+        return fn
+    st = body[i]
+    params = {a.arg for a in fn.args.args}
+    if not (isinstance(st, ast.If) and not st.orelse and len(st.body) == 1
+            and isinstance(st.body[0], ast.Assign) and len(
+                st.body[0].targets) == 1 and isinstance(
+                    st.body[0].targets[0], ast.Name)):
+        return fn
+    P = st.body[0].targets[0].id
+    v = st.body[0].value
+    t = st.test
+    if P not in params or not (
+            isinstance(t, ast.Call) and ast.unparse(t.func) == "isinstance"
+            and len(t.args) == 2 and ast.unparse(t.args[0]) == P and
+            isinstance(t.args[1], ast.Name)):
+        return fn
+    if not (isinstance(v, ast.Call) and len(v.args) == 1 and not v.keywords
+            and ast.unparse(v.args[0]) == P):
+        return fn
+    K = world.resolve_class(modname, v.func) if world is not None else None
+    if K is None or K.has_ext_base(t.args[1].id):
+        return fn
+    rest = body[i + 1:]
+    if any(isinstance(n, ast.Name) and n.id == P and isinstance(
+            n.ctx, (ast.Store, ast.Del)) for s_ in rest
+            for n in ast.walk(s_)):
+        return fn
+    T = t.args[1]
+    bad = [False]
+
+    def is_T():
+        return ast.Call(ast.Name("isinstance", ast.Load()),
+                        [ast.Name(P, ast.Load()), acopy(T)], [])
+
+    class Pull(ast.NodeTransformer):
+        def visit_Call(self, n):
+            self.generic_visit(n)
+            if ast.unparse(n.func) == "isinstance" and len(n.args) == 2 \
+                    and isinstance(n.args[0], ast.Name) and \
+                    n.args[0].id == P:
+                cs = n.args[1].elts if isinstance(
+                    n.args[1], ast.Tuple) else [n.args[1]]
+                parts = []
+                for c in cs:
+                    if ast.unparse(c) == ast.unparse(T):
+                        parts.append(ast.Constant(False))
+                        continue
+                    k2 = world.resolve_class(modname, c)
+                    if k2 is None:
+                        bad[0] = True
+                        return n
+                    one = ast.Call(ast.Name("isinstance", ast.Load()),
+                                   [ast.Name(P, ast.Load()), acopy(c)], [])
+                    if k2 in K.mro:
+                        parts.append(ast.BoolOp(ast.Or(), [one, is_T()]))
+                    else:
+                        parts.append(ast.BoolOp(ast.And(), [
+                            ast.UnaryOp(ast.Not(), is_T()), one]))
+                parts = [p_ for p_ in parts if not (isinstance(
+                    p_, ast.Constant) and p_.value is False)] or [
+                        ast.Constant(False)]
+                r = parts[0] if len(parts) == 1 else ast.BoolOp(ast.Or(),
+                                                                parts)
+                return ast.copy_location(r, n)
+            return n
+    new_rest = [Pull().visit(acopy(s_)) for s_ in rest]
+    if bad[0]:
+        return fn
+    out = acopy(fn)
+    out.body = body[:i] + new_rest
+    ast.fix_missing_locations(out)
+    return out
